@@ -41,6 +41,14 @@ func main() {
 		sort.Strings(ids)
 		fmt.Println(strings.Join(ids, " "))
 		return
+	case "anchors":
+		// gmverif anchors [repo]: prints the fingerprints of the functions of the production packages
+		repo := "/repo"
+		if len(os.Args) > 2 {
+			repo = os.Args[2]
+		}
+		os.Stdout.Write(dumpAnchors(Load(repo, "quick")))
+		return
 	case "check":
 	default:
 		fmt.Fprintln(os.Stderr, "unknown command", os.Args[1])
